@@ -3,7 +3,8 @@ cl/compile.go preloadGopFile typInit / preloadFile classRecv; cl/expr.go compile
 
 A  Props/C11.v : C11_class_fields_exact(_nodup), C11_class_fields_nodup, C11_class_methods_exact,
    C11_class_plain_is_method, C11_class_funcs_count, C11_class_equiv, C11_static_scope_is_lexical,
-   C11_desugar_idempotent
+   C11_desugar_idempotent, C11_class_struct_any_order, C11_class_equiv_two_instances,
+   C11_static_scope_is_lexical_two_instances
 B  K-diff on generated classes (several per package, one go build, one run):
    (type view)  fields (order, names, embedded, type, tag) and functions/receivers of the Go type emitted for
                 the class file  ==  class_fields / class_funcs of the model
@@ -110,7 +111,14 @@ class ClassGen:
             body = self.block(2 + rng.below(2), [param], [param], top=True)
             body.append(["return", self.expr(2, [param], top=True)])
             self.methods.append((self.mnames[i], param, body))
-        self.calls = [(rng.choice(self.mnames), rng.below(9) - 2) for _ in range(2 + rng.below(4))]
+        # two instances, always both used: a := &K{firstfield: 1}, b := new(K)
+        self.calls = [(rng.choice("ab"), rng.choice(self.mnames), rng.below(9) - 2) for _ in range(2 + rng.below(4))]
+        self.calls += [("a", rng.choice(self.mnames), rng.below(9) - 2), ("b", rng.choice(self.mnames), rng.below(9) - 2)]
+        # the leading declarations of the class file, in a seeded order: consts and types before and/or after the var block
+        self.pre = [k for k in ("const", "type") if rng.below(2)]
+        if rng.below(2):
+            self.pre.reverse()
+        self.post = [k for k in ("const", "type") if rng.below(3) == 0]
         # the var block: int fields (grouped at random) + decorations
         self.specs = []
         fs = list(self.fields)
@@ -229,15 +237,26 @@ class ClassGen:
             fs.append(("touch" + self.name, "(recv Other)"))
         return fs
 
+    def decls(self):
+        return ["import"] + self.pre + ["var"] + self.post + ["func"] * len(self.funcs())
+
+    def decl_src(self, k, i):
+        if k == "const":
+            return "const c%s%d = %d\n\n" % (self.name, i, 3 + i)
+        return "type t%s%d struct {\n\tv int\n}\n\n" % (self.name, i)
+
     def model_line(self):
-        return "(class %s (specs %s) (funcs %s) (fields %s) (methods %s) (globals %s) (calls %s))" % (
-            self.name, " ".join(self.spec_sx(s) for s in self.specs),
+        return "(class %s (decls %s) (specs %s) (funcs %s) (fields %s) (methods %s) (globals %s) (calls %s))" % (
+            self.name, " ".join(self.decls()), " ".join(self.spec_sx(s) for s in self.specs),
             " ".join("(%s %s)" % f for f in self.funcs()), " ".join(self.fields),
             " ".join("(%s %s %s)" % (n, p, self.sx(b)) for n, p, b in self.methods),
-            " ".join(GLOBALS), " ".join("(%s %d)" % c for c in self.calls))
+            " ".join(GLOBALS), " ".join("(%s %s %d)" % c for c in self.calls))
 
     def gox(self, pkg, class_src):
-        src = 'package %s\n\nimport "bytes"\n\nvar (\n%s\n)\n\n' % (pkg, "\n".join(self.spec_src(s) for s in self.specs))
+        src = 'package %s\n\nimport "bytes"\n\n' % pkg
+        src += "".join(self.decl_src(k, i) for i, k in enumerate(self.pre))
+        src += "var (\n%s\n)\n\n" % "\n".join(self.spec_src(s) for s in self.specs)
+        src += "".join(self.decl_src(k, 10 + i) for i, k in enumerate(self.post))
         src += class_src
         if self.static:
             src += "func .st(a int) int {\n\treturn a + 1\n}\n\n"
@@ -246,10 +265,13 @@ class ClassGen:
         return src
 
     def driver(self, tname, tag):
-        L = ["\tresetGlobals()", "\t{", "\t\tc := new(%s)" % tname, '\t\techo "%s", "%s"' % (tag, self.name)]
-        for m, v in self.calls:
-            L.append('\t\techo "ret", c.%s(%d)' % (m, v))
-        L.append('\t\techo "fld", %s' % ", ".join("c." + f for f in self.fields))
+        # fields are also read from OUTSIDE the class: composite literal with a field, a.f / b.f selectors
+        L = ["\tresetGlobals()", "\t{", "\t\ta := &%s{%s: 1}" % (tname, self.fields[0]), "\t\tb := new(%s)" % tname,
+             '\t\techo "%s", "%s"' % (tag, self.name)]
+        for o, m, v in self.calls:
+            L.append('\t\techo "ret", %s.%s(%d)' % (o, m, v))
+        L.append('\t\techo "flda", %s' % ", ".join("a." + f for f in self.fields))
+        L.append('\t\techo "fldb", %s' % ", ".join("b." + f for f in self.fields))
         L.append('\t\techo "glb", %s' % ", ".join(GLOBALS))
         L.append("\t}")
         return L
@@ -259,8 +281,8 @@ def parse_model(l):
     return dict(t.split("=", 1) for t in l.split(" ") if "=" in t)
 
 
-def fmt_outcome(rets, trace, flds, glbs):
-    return "V:%s|%s|%s|%s" % (",".join(rets), ",".join(trace), ",".join(flds), ",".join(glbs))
+def fmt_outcome(rets, trace, flda, fldb, glbs):
+    return "V:%s|%s|%s|%s|%s" % (",".join(rets), ",".join(trace), ",".join(flda), ",".join(fldb), ",".join(glbs))
 
 
 def run(ctx):
@@ -407,12 +429,12 @@ func main() {
     for l in rout.splitlines():
         f = l.split(" ")
         if f[0] in ("C", "X") and len(f) == 2:
-            cur = obs.setdefault((f[0], f[1]), {"ret": [], "P": [], "fld": [], "glb": []})
+            cur = obs.setdefault((f[0], f[1]), {"ret": [], "P": [], "flda": [], "fldb": [], "glb": []})
         elif f[0] == "PANIC":
             ctx.broken("correspondence(c11:run)", "generated program panicked: " + l)
         elif cur is not None and f[0] in ("ret", "P"):
             cur[f[0]].append(f[1])
-        elif cur is not None and f[0] in ("fld", "glb"):
+        elif cur is not None and f[0] in ("flda", "fldb", "glb"):
             cur[f[0]] = f[1:]
 
     bc, bi, bm = [], [], []
@@ -431,7 +453,8 @@ func main() {
                 if o is None:
                     s = "<no output>"
                 else:
-                    s = fmt_outcome(o["ret"], o["P"], ["%s=%s" % p for p in zip(c.fields, o["fld"])], ["%s=%s" % p for p in zip(GLOBALS, o["glb"])])
+                    s = fmt_outcome(o["ret"], o["P"], ["%s=%s" % p for p in zip(c.fields, o["flda"])],
+                                    ["%s=%s" % p for p in zip(c.fields, o["fldb"])], ["%s=%s" % p for p in zip(GLOBALS, o["glb"])])
                 outs[tag] = s
                 bc.append("%s %s" % (c.name, {"RUNC": "class form", "RUNX": "explicit form", "RUND": "class form ~ environment-based evaluator"}[key]))
                 bi.append(s)
@@ -449,8 +472,10 @@ func main() {
                         "model": bm[3 * i] if 3 * i < len(bm) else None} for i in (0, len(classes) // 2)],
               rule="%d seeded classes (1-4 int fields from a 6-name pool that is ALSO declared at package level, 1-4 one-parameter "
                    "methods with nested if/else, := shadowing fields/parameters, bare and this.-qualified field access, bare and "
-                   "this.-qualified calls of later methods; var block with grouped names, tags, embedded T, *T, *pkg.T, pkg.T; optional "
-                   "static method and receiver function), %d per package, each with the explicit form produced by the model; one go "
+                   "this.-qualified calls of later methods; var block with grouped names, tags, embedded T, *T, *pkg.T, pkg.T, standing "
+                   "after the import and after/before const and type declarations in seeded order; optional static method and "
+                   "receiver function; every scenario uses two instances (a := &K{f: 1}, b := new(K)), interleaves calls on both and "
+                   "reads every field of both from outside the class), %d per package, each with the explicit form produced by the model; one go "
                    "build, one run; evaluations = scenario runs compared (%d: class form and explicit form) + type-view comparisons "
                    "(%d); non-trivial = distinct class. Not generated: a method call next to another operand in one expression "
                    "(Go leaves the order of a variable read and a call unspecified), duplicate field names (a compile error), calls through "
